@@ -111,6 +111,7 @@ class DB:
     def __init__(self):
         self.tus = []
         self.fns = []          # de-duplicated instances
+        self.drivers = []      # bodies of the probe translation units' own functions (resolved calls into the library)
         self.by_q = {}
         self.by_pat = {}       # (relfile, line) -> [fn]
         self.patterns = {}     # (relfile, line) -> qualified name (dependent patterns)
@@ -215,6 +216,10 @@ def load(tier='quick', want_tus=None):
             db.by_q[key2] = fn
             db.fns.append(fn)
             db.by_pat.setdefault((fn['file'], fn['pat']['l']), []).append(fn)
+        for fn in d.get('drivers', []):
+            fn['_tu'] = d
+            fn['file'] = rel[fn['pat']['f']]
+            db.drivers.append(fn)
         for p in d['patterns']:
             db.patterns[(rel[p['loc']['f']], p['loc']['l'])] = p['q']
         for r in d['records']:
